@@ -140,6 +140,15 @@ Proof.
     cbn [forallb is_cat andb]. eapply IH; [unfold Wf_nat.ltof; cbn; lia|eassumption].
 Qed.
 
+Lemma is_cat_is_pre es : forallb is_cat es = true -> forallb is_pre es = true.
+Proof.
+  induction es as [|e es IH]; [reflexivity|]. cbn [forallb]. intros H. apply andb_prop in H as [H1 H2].
+  unfold is_pre at 1. rewrite H1, (IH H2). reflexivity.
+Qed.
+Lemma pre_okb_is_pre pre dom : pre_okb dom pre = true -> forallb is_pre pre = true.
+Proof. intros H. apply is_cat_is_pre, (pre_okb_is_cat _ _ H). Qed.
+
+
 Lemma headersize_pos : 0 < Headersize. Proof. reflexivity. Qed.
 
 (** no file is left without a header *)
